@@ -13,9 +13,10 @@
 
 namespace sim {
 
-struct Reply { int code = 250; std::string form = "single"; std::string act = "reply"; int64_t stall = 0; };
-static Reply reply_from(const Json &j, int dflt) { Reply r; r.code = (int)j.geti("code", dflt); r.form = j.gets("form", "single"); r.act = j.gets("act", "reply"); r.stall = j.geti("stall", 0); return r; }
+struct Reply { int code = 250; std::string form = "single"; std::string act = "reply"; int64_t stall = 0; std::string text; /* non-empty: a line that is no SMTP reply at all */ };
+static Reply reply_from(const Json &j, int dflt) { Reply r; r.code = (int)j.geti("code", dflt); r.form = j.gets("form", "single"); r.act = j.gets("act", "reply"); r.stall = j.geti("stall", 0); r.text = j.gets("text"); if (!r.text.empty()) r.code = 999; return r; }
 static std::string render(const Reply &r) {
+  if (!r.text.empty()) return r.text + "\r\n";
   std::string c = std::to_string(r.code); while (c.size() < 3) c = "0" + c;
   if (r.form == "multi") return c + "-first line\r\n" + c + "-second\r\n" + c + " last\r\n";
   if (r.form == "long") return c + " " + std::string(6000, 't') + "\r\n";
@@ -297,7 +298,7 @@ struct WorldSO : World, Net {
     if (!stop) { if (lost(mail)) { fin = 'Z'; stop = true; } else if (mail.code >= 500) { fin = 'D'; stop = true; } else if (mail.code >= 400) { fin = 'Z'; stop = true; } }
     if (!stop) {
       bool any = false;
-      for (size_t i = 0; i < rcpts.size(); i++) { Reply r = i < rcpt_r.size() ? rcpt_r[i] : Reply(); if (lost(r)) { fin = 'Z'; stop = true; break; } if (r.code >= 500) want_rcpt.push_back('h'); else if (r.code >= 400) want_rcpt.push_back('s'); else { want_rcpt.push_back('r'); any = true; } }
+      for (size_t i = 0; i < rcpts.size(); i++) { Reply r = i < rcpt_r.size() ? rcpt_r[i] : Reply(); if (lost(r)) { fin = 'Z'; stop = true; break; } if (r.code >= 500) { want_rcpt.push_back('h'); } else if (r.code >= 400) want_rcpt.push_back('s'); else { want_rcpt.push_back('r'); any = true; } }
       if (!stop && !any) { fin = 'D'; stop = true; }
     }
     bool partial = !msg.empty() && msg.back() != '\n' && msg.back() != '\r';
@@ -307,8 +308,10 @@ struct WorldSO : World, Net {
     if (!stop) { if (lost(dot)) { fin = 'Z'; dup_warn = true; } else if (dot.code >= 500) fin = 'D'; else if (dot.code >= 400) fin = 'Z'; else fin = 'K'; }
     // compare
     if (segs.size() != want_rcpt.size() + 1) { violate("C09.report-count", "expected " + std::to_string(want_rcpt.size()) + " recipient reports and one verdict, qmail-remote printed " + outs); return; }
-    for (size_t i = 0; i < want_rcpt.size(); i++) { char g = segs[i].empty() ? 0 : segs[i][0]; if (g != want_rcpt[i]) { violate(g == 'r' ? "C09.recipient-upgraded" : "C09.recipient-report", "recipient " + std::to_string(i + 1) + " (server said " + std::to_string(i < rcpt_r.size() ? rcpt_r[i].code : 250) + ") reported as '" + std::string(1, g ? g : '?') + "', expected '" + std::string(1, want_rcpt[i]) + "'; output " + outs); return; } }
+    for (size_t i = 0; i < want_rcpt.size(); i++) { char g = segs[i].empty() ? 0 : segs[i][0]; if (g == 's' && want_rcpt[i] == 'h' && i < rcpt_r.size() && !rcpt_r[i].text.empty()) continue;   /* a line that is no reply at all is a refusal; the documents do not say which kind */
+      if (g != want_rcpt[i]) { violate(g == 'r' ? "C09.recipient-upgraded" : "C09.recipient-report", "recipient " + std::to_string(i + 1) + " (server said " + std::to_string(i < rcpt_r.size() ? rcpt_r[i].code : 250) + ") reported as '" + std::string(1, g ? g : '?') + "', expected '" + std::string(1, want_rcpt[i]) + "'; output " + outs); return; } }
     char gf = segs.back().empty() ? 0 : segs.back()[0];
+    { bool garbage_decides = (!mail.text.empty() && mail.code >= 500) || !data.text.empty() || !dot.text.empty(); if (gf == 'Z' && fin == 'D' && garbage_decides) fin = 'Z'; }
     if (gf != fin) { violate(gf == 'K' ? "C09.false-success" : "C09.verdict", "final verdict '" + std::string(1, gf ? gf : '?') + "', the server's behaviour (greeting " + std::to_string(greeting.code) + "/" + greeting.act + ", HELO " + std::to_string(helo.code) + "/" + helo.act + ", MAIL " + std::to_string(mail.code) + "/" + mail.act + ", DATA " + std::to_string(data.code) + "/" + data.act + ", dot " + std::to_string(dot.code) + "/" + dot.act + ") requires '" + std::string(1, fin) + "'; output " + outs); return; }
     if (dup_warn && segs.back().find("Possible duplicate") == std::string::npos) { violate("C09.no-duplicate-warning", "connection lost after the final dot but the report does not flag a possible duplicate: " + outs); return; }
     if (!dup_warn && fin == 'Z' && segs.back().find("Possible duplicate") != std::string::npos && !lost(dot)) { violate("C09.spurious-duplicate-warning", outs); return; }
